@@ -19,6 +19,13 @@ def one_trace(rng, tid, prop):
         # the other options must not matter for the text either (C15)
         kw.update({"retain_names": rng.random() < 0.5, "retain_coefficients": rng.random() < 0.5,
                    "sort_graded": rng.random() < 0.5, "sort_reverse": rng.random() < 0.5})
+    # sympy round trips of 0-d polynomials with arbitrary double coefficients (default display signs)
+    for _ in range(2):
+        names = gen.rand_names(rng, 1, 3, pool=(0, 1, 2, 10, 12))
+        spec = gen.rand_poly_spec(rng, shape=(), names=names, kind="float", max_terms=4, max_exp=3, min_terms=1)
+        spec["coefs"] = [[rng.uniform(-10.0, 10.0) if rng.random() < 0.8 else rng.choice([0.1, 1.0 / 3.0, 1e-05, 2.5e+20])] for _ in spec["coefs"]]
+        a = rec.new(build_poly(spec))
+        rec.do("rebuild", [a], keep=False, via="sympy")
     if rng.random() < 0.85:
         rec.do("set_options", [], keep=False, kw=kw, bad=[])
     for _ in range(rng.randint(2, 4)):
@@ -34,6 +41,16 @@ def one_trace(rng, tid, prop):
             if rng.random() < 0.4:
                 spec["coefs"] = [[rng.choice([1, -1]) * (1 if kind == "int" else 1.0) if kind != "complex" else c for c in row]
                                  for row in spec["coefs"]]
+        if kind == "float" and rng.random() < 0.5:
+            # arbitrary doubles (17 significant digits, tiny and huge magnitudes), not only short binary fractions
+            def any_double():
+                c = rng.random()
+                if c < 0.6:
+                    return rng.uniform(-10.0, 10.0)
+                if c < 0.8:
+                    return rng.choice([0.1, -0.3, 1.0 / 3.0, 2.0 / 3.0, 1e-05, 1.5e-07, 123456789.125, 1e+16, 2.5e+20])
+                return rng.uniform(-1.0, 1.0) * 10.0 ** rng.randint(-8, 12)
+            spec["coefs"] = [[any_double() if c else 0.0 for c in row] for row in spec["coefs"]]
         a = rec.new(build_poly(spec))
         for fn in rng.sample(["str", "repr", "array_str", "array_repr"], 2):
             rec.do("text", [a], keep=False, fn=fn, lexerror="", terms=[], text="")
